@@ -281,6 +281,165 @@ def job_lammps_box(seed):
     return obs
 
 
+class Field:
+    def __init__(s, start, width, value, kind): s.start, s.width, s.value, s.kind = start, width, value, kind
+    def __repr__(s): return '[%d+%d %s %r]' % (s.start, s.width, s.kind, s.value)
+
+
+class ColSink:
+    """fixed-column lines: fprintf with a literal (or sprintf-built) format puts conversion k into columns [c_k, c_k + w_k) PROVIDED its text fits the width w_k
+    (assumed contract of printf: a field is never truncated, a longer text shifts everything after it).  The 'fits' conditions are collected as obligations."""
+    def __init__(s): s.lines, s.cur, s.col, s.fits = [], [], 0, []
+    def fprintf(s, f, fmt, *args):
+        args = list(args)
+        if not isinstance(fmt, str):
+            raise rvc.Unsupported('fprintf with a format that is not a string')
+        for m in re.finditer(r'%(-?)(\d*)(?:\.(\d+))?(ld|li|d|f|s)|\n|[^%\n]+', fmt):
+            tok = m.group(0)
+            if tok == '\n':
+                s.lines.append(s.cur); s.cur, s.col = [], 0
+            elif tok.startswith('%'):
+                if not args:
+                    raise rvc.Unsupported('fprintf: more conversions than arguments')
+                v = args.pop(0)
+                w = int(m.group(2)) if m.group(2) else None
+                kind = m.group(4)
+                if w is None:
+                    s.cur.append(Field(s.col, 0, v, 'free')); continue      # free-format conversion: not a fixed column
+                if kind in ('ld', 'li', 'd'):
+                    s.fits.append(('int', w, v))
+                elif kind == 's':
+                    prec = int(m.group(3)) if m.group(3) else None
+                    s.fits.append(('str', w, prec, v))
+                else:
+                    s.fits.append(('float', w, int(m.group(3) or 6), v))
+                s.cur.append(Field(s.col, w, v, kind)); s.col += w
+            else:
+                s.cur.append(Field(s.col, len(tok), tok, 'lit')); s.col += len(tok)
+        if args:
+            raise rvc.Unsupported('fprintf: more arguments than conversions')
+
+
+class ColLine:
+    def __init__(s, fields): s.fields = fields; s.width = sum(f.width for f in fields)
+
+
+def c_sprintf(buf, fmt, *args):
+    """sprintf of integers into a format string (assumed contract); the result is stored in the buffer variable"""
+    vals = tuple(rvc._i(rvc.rval(a)) for a in args)
+    f = rvc.rval(fmt)
+    if not isinstance(f, str) or not all(isinstance(v, int) for v in vals):
+        raise rvc.Unsupported('sprintf with symbolic arguments')
+    buf.set(re.sub(r'%l?[di]', '%d', f.replace('%ld', '%d')) % vals)
+c_sprintf.by_ref = True
+
+
+def job_gro_atoms(seed):
+    """gro atom lines are fixed-column text: the columns the writer fills are the columns the reader cuts, for EVERY bead index and residue number
+    (the loop body is executed once for a symbolic index: a per-iteration contract, unbounded in the number of beads)"""
+    rvc.reset()
+    fw = rvc.functions(rvc.ast('csg/src/libcsg/modules/io/growriter.cc', 'GROWriter::Write'))
+    fr = rvc.functions(rvc.ast('csg/src/libcsg/modules/io/groreader.cc', 'GROReader::NextFrame'))
+    if 'Write' not in fw or 'NextFrame' not in fr:
+        raise core.Undecided('front end: GROWriter::Write / GROReader::NextFrame not found')
+    obs = []
+    mfs = [{'name': 'GROWriter::Write', 'file': 'csg/src/libcsg/modules/io/growriter.cc', 'ast_nodes': rvc.node_count(fw['Write'][0])},
+           {'name': 'GROReader::NextFrame', 'file': 'csg/src/libcsg/modules/io/groreader.cc', 'ast_nodes': rvc.node_count(fr['NextFrame'][0])}]
+    isym, rsym = sp.Symbol('i', integer=True, nonnegative=True), sp.Symbol('resnr', integer=True, nonnegative=True)
+    for hasv in (False, True):
+        t = 'vel' if hasv else 'novel'
+        sink = ColSink()
+        pos, vel = Mx.sym('p', 3), Mx.sym('v', 3)
+        bead = Obj(m_getResnr=lambda: SInt(rsym), m_getName=lambda: 'ATOMNAME', m_getPos=lambda: pos, m_getVel=lambda: vel)
+        box = Mx.sym('h', 3, 3)
+        conf = Obj(m_BeadCount=lambda: SInt(sp.Symbol('nbeads', integer=True, positive=True)), m_HasVel=lambda: hasv, m_getBox=lambda: box.copy(), m_getBead=lambda k: bead,
+                   m_getResidue=lambda r: Obj(m_getName=lambda: 'RESIDUENAME'))
+        PW = rvc.Paths(); PW.start()
+        rvc.CTX.base = [z3.Int('i') >= 0, z3.Int('resnr') >= 0, z3.Int('nbeads') >= 1]
+        cb = {'fprintf': sink.fprintf, 'sprintf': c_sprintf, 'fflush': lambda *a: None, 'c_str': lambda x: x, 'decide': PW.decide,
+              'decl': lambda ex_, vd, ty, inner: ('' if ty.startswith('char[') else NotImplemented)}
+        ex = Exec({'conf': conf}, cb, {}, {'__class__': 'GROWriter', 'out_': 'FILE'})
+        body = rvc.body_of(fw['Write'][0])
+        loop = None
+        for st in body['inner']:
+            if st['kind'] == 'ForStmt':
+                loop = st
+                break
+            ex.stmt(st)
+        if loop is None:
+            raise core.Undecided('GROWriter::Write: bead loop not found')
+        del sink.lines[:]; sink.cur, sink.col, sink.fits = [], 0, []
+        ex.env['i'] = SInt(isym)
+        ex.stmt(loop['inner'][4])                    # one iteration for an arbitrary bead index
+        ok = len(sink.lines) == 1 and sink.col == 0
+        ob(obs, 'C08.gro.atoms/%s/one-line' % t, 'GROWriter::Write', 'every bead is exactly one line', ok, str(sink.lines)[:300], fns=mfs)
+        if not ok:
+            continue
+        line = sink.lines[0]
+        # every field fits its width (otherwise all later columns shift)
+        zi, zr = z3.Int('i'), z3.Int('resnr')
+        for kfit, ft in enumerate(sink.fits):
+            if ft[0] == 'int':
+                w, v = ft[1], ft[2]
+                ve = SInt.ex(v) if isinstance(v, (int, SInt)) else D.lift(v).v
+                rvc.CTX.base = [zi >= 0, zr >= 0]
+                o = rvc.logic('C08.gro.atoms/%s/fits.int%d' % (t, kfit), 'GROWriter::Write', 'the integer printed with width %d has at most %d characters for every bead index and residue number (0 <= value < 10^%d)' % (w, w, w),
+                              z3.And(rvc.to_z3(sp.Ge(ve, 0)), rvc.to_z3(sp.Lt(ve, 10 ** w))), small=[zi <= 10 ** 7, zr <= 10 ** 7])
+                o['functions'] = mfs
+                obs.append(o)
+            elif ft[0] == 'str':
+                w, prec = ft[1], ft[2]
+                ob(obs, 'C08.gro.atoms/%s/fits.str%d' % (t, kfit), 'GROWriter::Write', 'a name printed into %d columns is cut to at most %d characters by its precision' % (w, w), prec is not None and prec <= w, 'width %s precision %s' % (w, prec), fns=mfs)
+        # the reader on this line
+        got = {}
+        cuts = []
+        getline, state, posn = reader_stream(['title', '1', ColLine(line), [D(1), D(1), D(1)]])
+        rbead = Obj(m_setPos=lambda v: got.__setitem__('pos', v.copy()), m_setVel=lambda v: got.__setitem__('vel', v.copy()))
+        top = Obj(m_BeadCount=lambda: 1, m_getBead=lambda k: rbead, m_setBox=lambda b: None)
+        def construct(ex_, n, ty, args):
+            full = ty + ' ' + n['type'].get('desugaredQualType', '')
+            if 'basic_string' in full or ty in ('std::string', 'string'):
+                if len(args) == 3:
+                    a = [rvc.rval(ex_.expr(x)) for x in args]
+                    if isinstance(a[0], ColLine):
+                        p0, ln = rvc._i(a[1]), rvc._i(a[2])
+                        if p0 > a[0].width:
+                            raise Thrown('std::out_of_range')      # std::string(str, pos, len) throws only for pos > size()
+                        if p0 == a[0].width:
+                            return Field(p0, 0, '', 'empty')
+                        hit = [f for f in a[0].fields if f.start == p0 and f.width == ln]
+                        cuts.append((p0, ln, bool(hit)))
+                        return hit[0] if hit else Field(p0, ln, None, 'misaligned')
+            if 'Tokenizer' in ty:
+                v = rvc.rval(ex_.expr(args[0]))
+                return Obj(m_ToVector=lambda: list(v))
+            if re.search(r'Vector3d|Matrix<double, 3, 1', full) and len(args) == 3:
+                return Mx.vec([D.lift(rvc.rval(ex_.expr(x))) for x in args])
+            return NotImplemented
+        def stod(x):
+            if isinstance(x, Field):
+                if x.value is None:
+                    return D(rvc.fresh('misaligned'))
+                return D.lift(x.value)
+            return D.lift(x)
+        cbr = {'getline': getline, 'eof': lambda f: state['eof'], 'stoi': lambda s_: int(s_), 'construct': construct, 'trim': lambda *a: None, 'stod': stod, 'ostream_write': lambda *a: None}
+        exr = Exec({'top': top}, cbr, {}, {'__class__': 'GROReader', 'fl_': 'STREAM', 'topology_': False})
+        thrown = False
+        try:
+            exr.stmt(rvc.body_of(fr['NextFrame'][0]))
+        except Ret:
+            pass
+        except Thrown:
+            thrown = True
+        mis = [c for c in cuts if not c[2]]
+        ob(obs, 'C08.gro.atoms/%s/columns' % t, 'GROWriter::Write + GROReader::NextFrame', 'every substring the reader cuts from an atom line is exactly one field the writer printed (same start column, same width)', not thrown and not mis and len(cuts) >= 6,
+           'line fields %s; reader cuts (start, length, aligned) %s' % (line, cuts), fns=mfs, wit={'fields': str(line), 'cuts': str(cuts)})
+        okp = 'pos' in got and all(rvc.nf_zero(got['pos'].g(c, 0).v - pos.g(c, 0).v) for c in range(3))
+        okv = (('vel' in got and all(rvc.nf_zero(got['vel'].g(c, 0).v - vel.g(c, 0).v) for c in range(3))) if hasv else ('vel' not in got))
+        ob(obs, 'C08.gro.atoms/%s/values' % t, 'GROWriter::Write + GROReader::NextFrame', 'the bead gets back its position%s' % (' and velocity' if hasv else '; no velocity is set for a frame without velocities'), okp and okv, 'got %s' % sorted(got), fns=mfs)
+    return obs
+
+
 def job_lammps_atoms(seed):
     """lammps dump atom lines: what the writer prints for bead k (positions, velocities, forces, with their unit factors) is what the reader stores in bead k"""
     rvc.reset()
@@ -505,7 +664,7 @@ def collect(obs):
 
 
 def run(tier, seed, only=None):
-    jobs = [(job_gro_box, (seed,)), (job_lammps_box, (seed,)), (job_dlpoly_box, (seed,)), (job_lammps_atoms, (seed,)), (job_count, (seed,))]
+    jobs = [(job_gro_box, (seed,)), (job_lammps_box, (seed,)), (job_dlpoly_box, (seed,)), (job_lammps_atoms, (seed,)), (job_gro_atoms, (seed,)), (job_count, (seed,))]
     if only:
         jobs = [j for j in jobs if re.search(only, j[0].__name__)] or jobs
     obs = core.pmap(jobs)
